@@ -182,6 +182,7 @@ package rjson
 // ---------------------------------------------------------------- public wrappers
 //@ func SkipValue(data, buffer) (p, err)
 //@   input data
+//@   scratch buffer
 //@   sim value init=none
 //@   assigns buffer.stackBuf
 //@   ensures @sim [C02,C08] err == nil ==> accepts(data) && p == endof(data)
@@ -190,11 +191,13 @@ package rjson
 //
 //@ func SkipValueFast(data, buffer) (p, err)
 //@   input data
+//@   scratch buffer
 //@   assigns buffer.stackBuf
 //@   ensures err == nil ==> 0 <= p && p <= len(data)
 //
 //@ func HandleArrayValues(data, handler, buffer) (p, err)
 //@   input data
+//@   scratch buffer
 //@   assigns buffer.stackBuf
 //@   ghost herr
 //@   ensures [C09] ghost_herr != nil ==> err == ghost_herr
@@ -202,6 +205,7 @@ package rjson
 //
 //@ func HandleObjectValues(data, handler, buffer) (p, err)
 //@   input data
+//@   scratch buffer
 //@   assigns buffer.stackBuf
 //@   ghost herr
 //@   ensures [C09] ghost_herr != nil ==> err == ghost_herr
@@ -209,6 +213,7 @@ package rjson
 //
 //@ func Valid(data, buffer) (ok)
 //@   input data
+//@   scratch buffer
 //@   sim value init=none
 //@   assigns buffer.stackBuf
 //@   ensures @sim [C01] ok <==> accepts(data) && wsrun(data, endof(data)) == len(data)
